@@ -9,8 +9,10 @@ mod c04;
 mod c05;
 mod c06;
 mod c10;
+mod c12;
 mod c16;
 mod c17;
+mod c18;
 mod reflex;
 mod sq;
 mod util;
@@ -114,6 +116,13 @@ fn main() {
         std::process::exit(2);
     }
     let prop = args[1].clone();
+    if prop == "gen-values" {
+        std::panic::set_hook(Box::new(|_| {}));
+        match c12::gen_values() {
+            Ok(s) => { print!("{s}"); std::process::exit(0); }
+            Err(e) => { eprintln!("gen-values failed: {e}"); std::process::exit(1); }
+        }
+    }
     if prop == "gen-policy" {
         std::panic::set_hook(Box::new(|_| {}));
         match c05::gen_policy() {
@@ -208,8 +217,10 @@ fn main() {
         "C05" => { c05::run(&mut ctx); true }
         "C06" => { c06::run(&mut ctx); true }
         "C10" => { c10::run(&mut ctx); true }
+        "C12" => { c12::run(&mut ctx); true }
         "C16" => { c16::run(&mut ctx); true }
         "C17" => { c17::run(&mut ctx); true }
+        "C18" => { c18::run(&mut ctx); true }
         _ => false,
     };
     if !ok {
